@@ -45,8 +45,8 @@
 (* Proposer field (0: none).  NilSet stands for a nil *ValidatorSet.         *)
 (*                                                                         *)
 (* A chain state (cstate.LatestBlockState) is a record                       *)
-(*   [h, bid, time, app, params, lhvc, lhpc, last, vals, next]               *)
-(* h = LastBlockHeight, bid / time / app = abstract tokens for LastBlockID,  *)
+(*   [h, ih, bid, time, app, params, lhvc, lhpc, last, vals, next]           *)
+(* h = LastBlockHeight, ih = InitialHeight, bid / time / app = abstract tokens for LastBlockID,  *)
 (* LastBlockTime and AppHash (0 = the zero value), params = a token for the  *)
 (* ConsensusParams value, lhvc / lhpc = LastHeight{Validators,Consensus-     *)
 (* Params}Changed, last / vals / next = the three validator sets.  ChainID   *)
@@ -60,6 +60,10 @@
 EXTENDS ValidatorSet      \* Integers, Sequences, FiniteSets, TLC; CONSTANT Cap
 
 CONSTANTS
+  InitialHeight,       \* genesis document's initial_height (MakeGenesisState: 0 is read as 1).  In the store it only sets
+                       \* the two "last changed" heights of the genesis state and travels in the per-height record; the
+                       \* heights the store itself works with are LastBlockHeight-relative whatever its value: the genesis
+                       \* state is height 0, its Validators the set of height 1, NextValidators of state h the set of h + 2
   KeyBindsPriorities,  \* TRUE  (as specified): a validator-set record is addressed by the FULL value of the set
                        \*        (membership, power, every priority, proposer)
                        \* FALSE (as implemented): by ValidatorSet.Hash(), the Merkle root of (address, power) only
@@ -93,11 +97,12 @@ AppAt(h)  == h + 1
 
 (******************************* genesis **************************************)
 \* MakeGenesisState: Validators = NewValidatorSet(vals), NextValidators = the same advanced by one round,
-\* LastValidators = nil, both "last changed" heights = InitialHeight = 1, zero block id and app hash.
+\* LastValidators = nil, both "last changed" heights = InitialHeight, zero block id and app hash.
 GenesisState(initChs, params) ==
   LET v == NewSet(initChs)
       n == IncrementOp(v.v, 1)
-  IN [h |-> 0, bid |-> 0, time |-> 0, app |-> 0, params |-> params, lhvc |-> 1, lhpc |-> 1,
+  IN [h |-> 0, ih |-> InitialHeight, bid |-> 0, time |-> 0, app |-> 0, params |-> params,
+      lhvc |-> InitialHeight, lhpc |-> InitialHeight,
       last |-> NilSet, vals |-> [v |-> v.v, prop |-> v.prop], next |-> [v |-> n.v, prop |-> n.prop]]
 
 (******************************* updateState **********************************)
@@ -118,7 +123,7 @@ UpdateState(s, chs, newParams) ==
       n == IncrementOp(r.v, 1)
   IN IF chs # <<>> /\ r.res # "ok" THEN [res |-> r.res, s |-> s]
      ELSE [res |-> "ok",
-           s |-> [h |-> height, bid |-> MetaAt(height).bid, time |-> MetaAt(height).time, app |-> AppAt(height),
+           s |-> [h |-> height, ih |-> s.ih, bid |-> MetaAt(height).bid, time |-> MetaAt(height).time, app |-> AppAt(height),
                   params |-> newParams,
                   lhvc |-> IF chs # <<>> THEN height + 2 ELSE s.lhvc,
                   lhpc |-> IF newParams # s.params THEN height + 1 ELSE 0,
@@ -164,7 +169,7 @@ Save(store, s) ==
              ELSE LET a == IF s.h = 0 THEN Put(vr1, AtKey(k(s.vals), 1), rec(s.vals)) ELSE vr1
                   IN Put(a, AtKey(k(s.next), s.h + 2), rec(s.next))
       pk == PKey(s.params, s.lhpc)
-  IN [st |-> Put(store.st, s.h, [lk |-> k(s.last), vk |-> k(s.vals), nk |-> k(s.next), pk |-> pk]),
+  IN [st |-> Put(store.st, s.h, [ih |-> s.ih, lk |-> k(s.last), vk |-> k(s.vals), nk |-> k(s.next), pk |-> pk]),
       vr |-> vr2,
       pr |-> Put(store.pr, pk, [lhc |-> s.lhpc, params |-> s.params])]
 
@@ -187,7 +192,7 @@ LoadAt(store, h) ==
            nextOK == HasKey(store.vr, r.nk) /\ ~IsNil(store.vr[r.nk].set)
        IN IF ~(lastOK /\ valsOK /\ nextOK /\ HasKey(store.pr, r.pk)) THEN [res |-> "panic"]
           ELSE [res |-> "ok",
-                s |-> [h |-> h,
+                s |-> [h |-> h, ih |-> r.ih,
                        bid  |-> IF h = 0 /\ GenesisAsSaved THEN 0 ELSE MetaAt(h).bid,
                        time |-> MetaAt(h).time,
                        app  |-> IF h = 0 /\ GenesisAsSaved THEN 0 ELSE AppAt(h),
